@@ -35,6 +35,7 @@ class AsyncResult(object):
         self._is_exc = is_exc
         self._obj = obj
         self._is_ready = True
+        self._conn._reply_published()
         self._run_callbacks()
 
     def _run_callbacks(self):
@@ -47,12 +48,15 @@ class AsyncResult(object):
                 return
             cb(self)
 
+    def _has_arrived(self):
+        return self._is_ready
+
     def wait(self):
         """Waits for the result to arrive. If the AsyncResult object has an
         expiry set, and the result did not arrive within that timeout,
         an :class:`AsyncResultTimeout` exception is raised"""
         while not self._is_ready and not self._ttl.expired():
-            self._conn.serve(self._ttl)
+            self._conn.serve(self._ttl, until=self._has_arrived)
         if not self._is_ready:
             raise AsyncResultTimeout("result expired")
 
